@@ -172,8 +172,11 @@ def rule_b(ctx):
     gu = router.lookup('_get_unknown_route')
     unk = {}
     for n in walk_local(gu.node):
-        if isinstance(n, ast.If) and isinstance(n.test, ast.Compare):
-            ft = ast.unparse(n.test.comparators[0]).split('.')[-1]
+        if isinstance(n, ast.If) and isinstance(n.test, ast.Compare) and len(n.test.ops) == 1 and \
+                isinstance(n.test.ops[0], (ast.Eq, ast.Is)) and \
+                gu.params()[1] in (ast.unparse(n.test.left), ast.unparse(n.test.comparators[0])):
+            other = n.test.comparators[0] if ast.unparse(n.test.left) == gu.params()[1] else n.test.left
+            ft = ast.unparse(other).split('.')[-1]
             from ..astutil import resolve_temp
             for s in n.body:
                 if isinstance(s, ast.Return) and s.value is not None and not isinstance(
@@ -297,41 +300,69 @@ def rule_c(ctx):
         ok, detail = False, 'require_route lacks a %s path' % ('returning' if not n_found else 'raising')
     rep.add('C19.c', 'require_route / first tag of the first routing item, else error', f, ok,
             detail or 'returns tags[0] of the first RoutingMetadata item; raises when there is none')
-    # argument collection
+    # argument collection, decided per iteration path: what is stored for the parameter vs the tests taken on it
     ca = router.lookup('_collect_route_arguments')
-    ok = False
-    loops = [n for n in walk_local(ca.node) if isinstance(n, ast.For) and isinstance(n.target, ast.Name)]
-    if loops:
-        pvar = loops[0].target.id
-        cm_param = [p_ for p_ in ca.params() if 'metadata' in p_]
-        pl_param = [p_ for p_ in ca.params() if p_ == 'payload']
-        for n in ast.walk(loops[0]):
-            test = n.test if isinstance(n, ast.If) else None
-            body, orelse = (n.body, n.orelse) if isinstance(n, ast.If) else ([], [])
-            if isinstance(test, ast.UnaryOp) and isinstance(test.op, ast.Not):
-                test, body, orelse = test.operand, orelse, body
-            if isinstance(n, ast.If) and isinstance(test, ast.BoolOp) and isinstance(test.op, ast.Or):
-                tests = [ast.unparse(v) for v in test.values]
-                by_name = any("'composite_metadata'" in t and pvar in t for t in tests)
-                by_ann = any('annotation is CompositeMetadata' in t for t in tests)
-
-                def stores(block):
-                    out = []
-                    for s_ in block:
-                        for x in ast.walk(s_):
-                            if isinstance(x, ast.Assign) and isinstance(x.targets[0], ast.Subscript) and \
-                                    isinstance(x.targets[0].slice, ast.Name) and x.targets[0].slice.id == pvar:
-                                out.append(x.value)
-                    return out
-                then_v = stores(body)
-                else_v = stores(orelse)
-                then_ok = len(then_v) == 1 and isinstance(then_v[0], ast.Name) and then_v[0].id in cm_param
-                from ..astutil import resolve_temp
-                else_ok = len(else_v) == 1 and pl_param and pl_param[0] in ast.unparse(ca.node)
-                ok = by_name and by_ann and then_ok and else_ok
+    if ca is None:
+        raise AnalysisError('C19.c: _collect_route_arguments vanished')
+    pars = ca.params()
+    cm_t = ('param', ca.qualname, [q for q in pars if 'metadata' in q][0]) if [q for q in pars if 'metadata' in q] \
+        else None
+    pl_t = ('param', ca.qualname, 'payload') if 'payload' in pars else None
+    ok = cm_t is not None and pl_t is not None
+    why = 'the collector has no payload / composite-metadata parameter' if not ok else ''
+    seen = set()
+    for p in ctx.paths(ca, router, inline_depth=0) if ok else []:
+        evs = p.events
+        ent = [e for e in evs if e.kind == 'loop' and e.data.get('phase') == 'enter']
+        if not ent:
+            continue
+        end = [e for e in evs if e.kind == 'loop' and e.data.get('phase') in ('back', 'cut', 'break') and
+               e.seq > ent[0].seq]
+        hi = end[0].seq if end else 10 ** 9
+        body = [e for e in evs if ent[0].seq < e.seq < hi]
+        name_eq = [c for c in body if c.kind == 'cond' and c.data['key'][0] == 'eq' and
+                   ('const', 'composite_metadata') in [strip_epoch(x) for x in c.data['key'][1:3]]]
+        ann_is = [c for c in body if c.kind == 'cond' and c.data['key'][0] == 'is' and
+                  'CompositeMetadata' in repr(c.data['key'])]
+        ann_in = [c for c in body if c.kind == 'cond' and c.data['key'][0] == 'in' and 'annotation' in repr(
+            c.data['key'][1]) and 'Payload' in repr(c.data['key'][2])]
+        st = [e for e in body if e.kind == 'store' and e.data['target'][0] == 'item']
+        if len(st) != 1:
+            ok, why = False, 'an iteration binds %d arguments for one parameter' % len(st)
+            continue
+        val = strip_epoch(st[0].data['value'].term)
+        is_meta = (name_eq and name_eq[-1].data['value'] is True) or (ann_is and ann_is[-1].data['value'] is True)
+        tested = bool(name_eq) and (name_eq[-1].data['value'] is True or bool(ann_is))
+        if not tested:
+            ok, why = False, 'a parameter is bound without testing its name and annotation for composite metadata'
+            continue
+        if is_meta:
+            seen.add('meta')
+            if val != cm_t:
+                ok, why = False, 'a composite_metadata parameter receives %s' % fmt_term(val)[:60]
+        else:
+            if not ann_in:
+                ok, why = False, 'a payload parameter is bound without looking at its annotation'
+                continue
+            raw = ann_in[-1].data['value'] is True
+            if raw:
+                seen.add('raw')
+                if val != pl_t:
+                    ok, why = False, ('a parameter annotated Payload (or not annotated) receives %s instead of the '
+                                      'raw payload' % fmt_term(val)[:70])
+            else:
+                seen.add('typed')
+                good = val[0] == 'call' and 'deserializer' in str(val[1]) and pl_t in [
+                    strip_epoch(x) for x in val[2] if isinstance(x, tuple)]
+                if not good:
+                    ok, why = False, ('a parameter annotated with a data type receives %s instead of the '
+                                      'deserialized payload' % fmt_term(val)[:70])
+    if ok and seen != {'meta', 'raw', 'typed'}:
+        ok, why = False, 'the collector has no path for %s parameters' % sorted({'meta', 'raw', 'typed'} - seen)
     rep.add('C19.c', 'RequestRouter._collect_route_arguments / metadata vs payload parameters', ca, ok,
-            'a parameter named composite_metadata or annotated CompositeMetadata receives the metadata, others the '
-            'payload' if ok else 'parameter binding no longer follows name/annotation')
+            'named composite_metadata or annotated CompositeMetadata -> the metadata; annotated Payload or not '
+            'annotated -> the raw payload; any other annotation -> payload_deserializer(annotation, payload)'
+            if ok else why)
 
 
 RULES = [('C19.a', rule_a), ('C19.b', rule_b), ('C19.c', rule_c)]
